@@ -20,6 +20,18 @@ def swap(prog, inventory):
     if not os.path.isdir(os.path.join(REF_ROOT, "formulae")):
         return
     ref = Program(REF_ROOT, normalise=False)
+    from . import canon as _canon
+
+    _canon.PROPERTY_NAMES.clear()
+    for pr in (prog, ref):
+        for fi in pr.functions.values():
+            if fi.is_property or any("setter" in unparse(d) or "getter" in unparse(d) for d in fi.node.decorator_list):
+                _canon.PROPERTY_NAMES.add(fi.name)
+        for ci in pr.classes.values():
+            if any(mn in ci.methods for mn in ("__setattr__", "__getattr__", "__getattribute__")) or "__slots__" in ci.class_attrs:
+                _canon.PROPERTY_NAMES.add("*")
+                for mi in ci.methods.values():
+                    mi.node._hooked = True
     swapped, differing = [], []
     inv = set(inventory["functions"])
     for q, f in list(prog.functions.items()):
